@@ -16,7 +16,8 @@
         of the section-qualified names S1_AA S2_AA S1_S2_AA / IFDEF; two base names per family, <= 2 SECTION statements
         nested <= 2.  Quick: gen4 (AA + BB, 18 statements, <= 4), focus6 (plain definitions, defining macro, calls,
         <= 6), nop / db / incl (AA + a machine instruction / pseudo instruction / macro-processor statement, <= 3):
-        123 k programs.  Thorough: free5 (<= 5), full4 (26 statements), focus7, nop4 db4 incl4.  Invariant InvAll:
+        123 k programs.  Thorough: free5 (<= 5), full4 (26 statements), focus7, nop4 db4 incl4: 1.49 M programs
+        (+ 442 k with all repairs), 56.8 k programs / 113.5 k assemblies replayed.  Invariant InvAll:
         lookup as coded = declarative outcome with one pass and with a forward reference (Agrees), the WHOLE table
         finds the innermost known definition for every name in every section of the program (TableIsInnermostKnown),
         pass 3 = pass 2, deviations named.  MacroScope_MC_fixed: with all repairs no deviation fires, no crash.
